@@ -446,6 +446,23 @@ fn main() {
             let ok = container::replay(&ctx, &rest[0], &rest[1]);
             std::process::exit(if ok { 0 } else { 1 });
         }
+        "stream-file" => {
+            // one raw DEFLATE stream from a file through the analysis, both verify values (large inputs: D13)
+            let d = std::fs::read(&rest[0]).expect("read");
+            for verify in [false, true] {
+                let t = std::time::Instant::now();
+                let o = streams::decompress(&d, verify);
+                println!(
+                    "verify={verify} outcome={} secs={:.1}",
+                    match &o {
+                        streams::Outcome::Ok(x) => format!("ok plain={} corr={} size={}", x.plain.len(), x.corr.len(), x.size),
+                        streams::Outcome::Err(e) => format!("err {e}"),
+                        streams::Outcome::Panic(p) => format!("panic {p}"),
+                    },
+                    t.elapsed().as_secs_f64()
+                );
+            }
+        }
         "c14-child" => container::c14_child(&ctx),
         "debug-boundary" => debug_boundary(ctx.seed),
         "versions" => {
